@@ -32,6 +32,23 @@ HOSTILE_ZONES = [
     "Very long zone name that exceeds the limit!", "Überhitzer – Stufe 2", "tab\tname", "Sheet", "  padded  ", "UPPER", "upper", "a/b:c", "History",
     "what*", "what_", "star?", "a:b?", "a_b_", "'", "''", "?", "x" * 30 + "'", "[]", "Summary",
 ]
+ODD_LABELS = ["2024", "007", "1e3", "NA", "nan", "None", "Area.1", " x ", "3.5", "TRUE", "N-A"]
+
+
+def xlsx_norm_label(text, prefix):
+    """The workbook reader's documented label normalisation (strip, '.' -> '-', digit-only labels get a prefix)."""
+    t = str(text).strip().replace(".", "-")
+    return prefix + t if t.isdigit() else t
+
+
+def xlsx_normalised(prob):
+    p = copy.deepcopy(prob)
+    for s_ in p["streams"]:
+        s_["zone"] = xlsx_norm_label(s_["zone"], "Z")
+        s_["name"] = xlsx_norm_label(s_["name"], "S")
+    return p
+
+
 LONG_FAMILY = [f"Evaporation and stripping plant - line {i}" for i in range(1, 9)]
 STEMS = ["case", "run A", "plant_2024", "x-y", "Projekt ä", "p (1)", "case.v2", "Plant.2024.rev3"]
 HOSTILE_STEMS = ["a[b]", "q?", "x:y", "'q'", "a very long project name over thirty-one chars", "st*r", "CASE"]
@@ -282,7 +299,7 @@ class C16(World):
     )
     assumptions = [
         "numbers are decimals with <= 6 fractional digits so every channel round-trips them exactly; cross-file comparisons use 1e-9 of total duty, in-memory forms are compared exactly",
-        "names used for channel equivalence are fixed points of the workbook reader's documented label normalisation (no '.', not digit-only, no edge blanks); hostile names go through dict/JSON/model channels only",
+        "the workbook channel is compared modulo the workbook reader's documented label normalisation (strip, '.' -> '-', digit-only labels prefixed); every other channel must reproduce labels exactly, including number-like and NA-like ones; hostile sheet-name characters go through dict/JSON/model channels only",
         "utilities in file channels are active with no preset duty (the sheet layout cannot express either)",
         "case-insensitive sheet-name clashes and edge apostrophes are counted, not judged",
     ]
@@ -344,6 +361,18 @@ class C16(World):
                     zmap[z] = "/".join(pr.choice(zpool).replace("/", "_") if hostile else pr.choice(zpool) for _ in parts) if len(parts) > 1 else pr.choice(zpool)
                 s["zone"] = zmap[z]
                 s["name"] = pr.choice(SAFE_NAMES) + (f" {pr.randrange(9)}" if pr.random() < 0.5 else "")
+            if not hostile and pr.random() < 0.15:
+                # labels that look like numbers or like missing-value markers (ordinary text in a dictionary or JSON file)
+                zmap2 = {}
+                for s_ in p["streams"]:
+                    if pr.random() < 0.6:
+                        zmap2.setdefault(s_["zone"], pr.choice(ODD_LABELS))
+                        s_["zone"] = zmap2[s_["zone"]]
+                    if pr.random() < 0.4:
+                        s_["name"] = pr.choice(ODD_LABELS)
+                for u in p["utilities"]:
+                    if pr.random() < 0.3:
+                        u["name"] = pr.choice(["NA", "2024", "nan", "1e3"])
             if pr.random() < 0.12 and p["streams"]:
                 p["streams"].insert(pr.randrange(len(p["streams"]) + 1), dict(p["streams"][pr.randrange(len(p["streams"]))]))  # two identical parallel units
             for u in p["utilities"]:
@@ -515,16 +544,17 @@ class C16(World):
             d["streams"][0]["heat_flow"] = float(("7" if lead != "7" else "3") + txt[1:]) if lead.isdigit() and lead != "0" else hf
             return d
 
-        def variant(p, keep=None, tweak=False):
-            d = materialize(tweaked(probs[p]["data"]) if tweak else probs[p]["data"])
+        def variant(p, keep=None, tweak=False, norm=False):
+            base_ = tweaked(probs[p]["data"]) if tweak else probs[p]["data"]
+            d = materialize(xlsx_normalised(base_) if norm else base_)
             if keep is not None:
                 d["streams"] = d["streams"][:keep]
             return d
 
-        def reference(p, name, keep=None, no_options=False, tweak=False):
-            k = (p, name, keep, no_options, tweak)
+        def reference(p, name, keep=None, no_options=False, tweak=False, norm=False):
+            k = (p, name, keep, no_options, tweak, norm)
             if k not in ref_cache:
-                d = variant(p, keep, tweak)
+                d = variant(p, keep, tweak, norm)
                 if no_options:
                     d.pop("options", None)
                 kind, val = run_plain(lambda: pinch_analysis_service(d, project_name=name))
@@ -541,7 +571,7 @@ class C16(World):
             m = model[w_i]
             p = m["loaded"]
             name = getattr(res, "name", None)
-            kind, ref, ref_text = reference(p, name, m["keep"], m["no_options"], m.get("tweak", False))
+            kind, ref, ref_text = reference(p, name, m["keep"], m["no_options"], m.get("tweak", False), m.get("ch") == "xlsx")
             if kind != "ok":
                 V("channel_eq", f"{m['ch']}|ref_raises|{fault_in_force}", step, f"wrapper returned a result for problem {p} but the plain-dict service raises {ref}")
                 return
@@ -847,7 +877,7 @@ class C16(World):
                     kind, val = run_plain(ctor)
                     no_opt = ch == "csv_dir" and prob["options"]
                     if kind == "ok":
-                        rk, ref, _ = reference(p, getattr(val, "name", None), None, no_opt)
+                        rk, ref, _ = reference(p, getattr(val, "name", None), None, no_opt, False, ch == "xlsx")
                         tick("channel_eq")
                         if rk != "ok":
                             V("channel_eq", f"ctor_{ch}|ref_raises|none", step, "run=True constructor succeeded but the plain-dict service raises")
@@ -865,7 +895,7 @@ class C16(World):
                         probe("ctor_run_" + ch)
                         outcome = "ok"
                     else:
-                        rk, _, _ = reference(p, stem, None, no_opt)
+                        rk, _, _ = reference(p, stem, None, no_opt, False, ch == "xlsx")
                         tick("ctor_ok")
                         if rk == "ok":
                             V("ctor_raises", f"ctor_{ch}|{type(val).__name__}", step, f"run=True constructor via {ch} raised {type(val).__name__}: {str(val)[:120]} ({str(getattr(val, '__cause__', ''))[:120]})")
